@@ -22,7 +22,7 @@ META = {
              "(controlled) / >=2 worker threads seen (real); distinct by (case hash, schedule hash)"),
     "require": {t: ["controlled:runs", "controlled:switches", "controlled:multi_worker_runs", "real:runs",
                     "real:multi_thread_runs", "cube:ccube", "cube:xcube", "aggs:all_together", "writeset:pairs_checked",
-                    "strategy:pct", "strategy:uniform"] for t in ("quick", "thorough")},
+                    "strategy:pct", "strategy:uniform", "class:more_than_256_subcubes"] for t in ("quick", "thorough")},
     "assumptions": ["the controlled scheduler serialises whole kernel/NumPy calls (yield points are catii bytecodes); true "
                     "overlap inside nogil kernels is only stressed by the real-thread regime",
                     "diagnostic counters (intersection_data_points, tracing) are excluded by the property"],
@@ -34,9 +34,11 @@ STRATEGIES = [("uniform", 0.01), ("uniform", 0.05), ("uniform", 0.3), ("pct", 1)
 def shards(tier):
     if tier == "quick":
         return [{"label": "ctl%d" % i, "kind": "controlled", "n": 10, "schedules": 8, "timeout_s": 900} for i in range(10)] + \
-               [{"label": "real%d" % i, "kind": "real", "n": 40, "timeout_s": 900} for i in range(4)]
+               [{"label": "real%d" % i, "kind": "real", "n": 40, "timeout_s": 900} for i in range(4)] + \
+               [{"label": "many%d" % i, "kind": "controlled", "many": True, "n": 3, "schedules": 3, "timeout_s": 900} for i in range(2)]
     return [{"label": "ctl%d" % i, "kind": "controlled", "n": 200, "schedules": 30} for i in range(13)] + \
-           [{"label": "real%d" % i, "kind": "real", "n": 2500} for i in range(3)]
+           [{"label": "real%d" % i, "kind": "real", "n": 2500} for i in range(3)] + \
+           [{"label": "many%d" % i, "kind": "controlled", "many": True, "n": 60, "schedules": 12} for i in range(2)]
 
 
 def serial_reference(case):
@@ -75,7 +77,8 @@ def judge(ctx, case):
         if "sseed_single" in case:   # replay of one recorded schedule
             plan = [(tuple(case["strategy"]), int(case["sseed_single"]), int(case["poolsize"]))]
         else:
-            plan = [(STRATEGIES[(case["sseed"] + s) % len(STRATEGIES)], case["sseed"] * 1000 + s,
+            strategies = [("uniform", 0.002), ("uniform", 0.02), ("pct", 2), ("pct", 3)] if case["subcubes"] > 100 else STRATEGIES
+            plan = [(strategies[(case["sseed"] + s) % len(strategies)], case["sseed"] * 1000 + s,
                      case["poolsizes"][s % len(case["poolsizes"])]) for s in range(case["schedules"])]
         for strat, seed, poolsize in plan:
 
@@ -142,9 +145,35 @@ def judge(ctx, case):
                     "dense_shapes": [list(numpy.asarray(d).shape) for d in case["dense"]], "poolsizes": case["poolsizes"]})
 
 
+def many_subcubes_case(rng, kind):
+    """More than 256 sub-cubes (17 x 16) over a handful of rows."""
+    from .c20 import cube_with_k
+    from .. import aggr
+
+    n = 3
+    ex = [[17], [16]]
+    dense = [gen.draw_values(rng, n * e[0], [0, 1, 2], "uniform").astype(numpy.int64).reshape(n, e[0]) for e in ex]
+    names = aggr.SHARED if kind == "ccube" else ["count", "sum", "mean", "max", "quantile"]
+    aggs = [gen.pick(rng, names) for _ in range(2)]
+    return {"dense": dense, "commons": [0, 1], "shape": (3, 3), "extents": [3, 3], "n": n, "kind": kind, "aggs": aggs,
+            "subcubes": 272,
+            "inputs": [aggr.agg_inputs(rng, n) if a in aggr.SHARED else aggr.xonly_inputs(rng, n, a) for a in aggs]}
+
+
 def cases(ctx):
     rng = ctx.rng
     s = ctx.shard
+    if s.get("many"):
+        for i in range(s["n"]):
+            c = many_subcubes_case(rng, "ccube" if i % 2 else "xcube")
+            c["regime"] = "controlled" if i % 4 < 3 else "real"
+            c["schedules"] = s["schedules"]
+            c["reps"] = 3
+            c["sseed"] = int(rng.integers(0, 2 ** 20))
+            c["poolsizes"] = [int(x) for x in rng.choice([2, 3, 4, 8, 16], size=3)]
+            ctx.count("class:more_than_256_subcubes")
+            yield c
+        return
     for i in range(s["n"]):
         kind = "ccube" if i % 2 == 0 else "xcube"
         if s["kind"] == "controlled":
